@@ -37,3 +37,10 @@ add('C02', 'Hypothesis generated coefficient vectors / segment bounds / temperat
     'get_X(array)[i]==get_X(array[i]) for dimensionless and dimensional getters. Exploration only.',
     'Trusted: closed forms in vf/ref.py; tolerances 1e-12 / 1e-13 of the sum of |terms|; derivative stencils never straddle a break.',
     'DESIGN.md 3/C02')
+add('C08', 'Hypothesis generated reactions over mixed species classes + reference sums computed from the species\' own getters (Hess), metamorphic relations (reversal, forward-reverse, Kf*Kr=1)',
+    'Reactions with 1-4 reactants/products, fractional coefficients, optional TS, species of every model class and names in prefix/suffix relation, under T, P and per-species '
+    'keyword blocks: every state/delta/act getter of Reaction, ChemkinReaction and SurfaceReaction is compared with the stoichiometric sum of the species\' own values computed by the '
+    'harness under each species\' own conditions; reversal antisymmetry, forward-minus-reverse, ln Keq = -dG, Kf*Kr = 1, partition-function ratios in logs, EoRT, and purity of the '
+    'caller\'s dictionaries. Exploration only.',
+    'Trusted: each species getter (judged by C01/C02); tolerance 1e-10 of the sum of |nu X|; over/underflowing K and q cases are skipped and counted.',
+    'DESIGN.md 3/C08')
